@@ -153,7 +153,11 @@ def run_property(modname, tier, seed, replay=None, jobs=None):
     pid = mod.ID
     for v in mod.VARIANTS:
         build.ensure(v)
-    if hasattr(mod, "prepare"):
+    if not replay:
+        # cases found by an earlier run are stale (cleared before prepare(), whose harness part saves its failures there too)
+        import shutil
+        shutil.rmtree(os.path.join(ROOT, ".work", "found", pid), ignore_errors=True)
+    if hasattr(mod, "prepare") and (not replay or getattr(mod, "PREPARE_ON_REPLAY", True)):
         import inspect
         if len(inspect.signature(mod.prepare).parameters) >= 2:
             mod.prepare(tier, seed)
@@ -235,8 +239,6 @@ def run_property(modname, tier, seed, replay=None, jobs=None):
                     if all(r.status == "violation" for r in again):
                         violations.append(rel)
     # ---- generated search
-    import shutil
-    shutil.rmtree(os.path.join(ROOT, ".work", "found", pid), ignore_errors=True)
     ncases, wall = mod.BUDGET[tier]
     jobs = jobs or min(16, os.cpu_count() or 4)
     if getattr(mod, "JOBS", None):
